@@ -36,3 +36,10 @@ Fixpoint for_down {S : Type} (n : nat) (st : S) (body : Z -> S -> outcome S) : o
   | O => Val st
   | S n' => do st' <- body (Z.of_nat n') st ; for_down n' st' body
   end.
+(* `&xs[a..b]`: out of range (a > b or b > len) = Panic.  `f(&mut xs[a..b])`: the callee's result
+   for the window is written back with splice. *)
+Definition subslice (l : list Z) (a b : Z) : outcome (list Z) :=
+  if (0 <=? a) && (a <=? b) && (b <=? lenZ l)
+  then Val (firstn (Z.to_nat (b - a)) (skipn (Z.to_nat a) l)) else Panic.
+Definition splice (l : list Z) (a : Z) (w : list Z) : list Z :=
+  firstn (Z.to_nat a) l ++ w ++ skipn (Z.to_nat a + length w) l.
